@@ -6,6 +6,7 @@ package memreg
 
 import (
 	"bytes"
+	"context"
 	"fmt"
 	"io"
 	"mime/multipart"
@@ -77,6 +78,9 @@ type Registry struct {
 	OnStall func(r *Req)
 	// Token required for 401 flows.
 	Token string
+	// ReadSize > 0 makes every response body return at most that many bytes per Read
+	// (a slow / fragmented network); 0 = whole body at once.
+	ReadSize int
 }
 
 // New returns an empty registry.
@@ -155,9 +159,28 @@ func parseRanges(h string) [][2]int64 {
 	return out
 }
 
+type trickle struct {
+	r io.Reader
+	n int
+}
+
+func (t *trickle) Read(p []byte) (int, error) {
+	if len(p) > t.n {
+		p = p[:t.n]
+	}
+	return t.r.Read(p)
+}
+
 func resp(req *http.Request, code int, hdr http.Header, body []byte) *http.Response {
 	if hdr == nil {
 		hdr = http.Header{}
+	}
+	if g, ok := req.Context().Value(readSizeKey{}).(int); ok && g > 0 {
+		return &http.Response{
+			StatusCode: code, Status: fmt.Sprintf("%d %s", code, http.StatusText(code)),
+			Proto: "HTTP/1.1", ProtoMajor: 1, ProtoMinor: 1,
+			Header: hdr, Body: io.NopCloser(&trickle{bytes.NewReader(body), g}), ContentLength: int64(len(body)), Request: req,
+		}
 	}
 	return &http.Response{
 		StatusCode: code, Status: fmt.Sprintf("%d %s", code, http.StatusText(code)),
@@ -166,8 +189,13 @@ func resp(req *http.Request, code int, hdr http.Header, body []byte) *http.Respo
 	}
 }
 
+type readSizeKey struct{}
+
 // RoundTrip implements http.RoundTripper.
 func (g *Registry) RoundTrip(req *http.Request) (*http.Response, error) {
+	if g.ReadSize > 0 {
+		req = req.WithContext(context.WithValue(req.Context(), readSizeKey{}, g.ReadSize))
+	}
 	g.mu.Lock()
 	g.n++
 	r := Req{N: g.n, Host: req.URL.Host, Method: req.Method, Path: req.URL.Path, Query: req.URL.RawQuery, Header: req.Header.Clone(),
